@@ -253,6 +253,31 @@ def eval_case(case, rec):
                         n_real += len(obj.cache.subcache(sub))
             if n_real != n_model:
                 raise Violation('entry-count', dict(info, entries=n_real, distinct_keys=n_model))
+        # object churn: further short-lived objects, each with its OWN new cache - a new cache holds nothing, whatever
+        # earlier objects (whose caches are gone, their addresses possibly reused) have stored
+        own = [m for m in methods if m['form'] != 'object']
+        if own:
+            m = own[0]
+            binding = m['pool'][0]
+            for j in range(4):
+                log2 = []
+                o2 = ns['Obj'](mk(f'churn{j}'), log2)
+                kw = {k: copy.deepcopy(v) for k, v in binding.items()}
+                try:
+                    got = getattr(o2, m['name'])(only_cache=True, **kw)
+                    if got is not tc.NO_VALUE:
+                        raise Violation('only_cache-phantom-entry', {'source': src, 'where': 'a new object with a new cache',
+                                                                     'object': j, 'got': repr(got)})
+                    got = getattr(o2, m['name'])(**kw)
+                    if len(log2) != 1:
+                        raise Violation('wrong-execution-count', {'source': src, 'where': 'a new object with a new cache',
+                                                                  'object': j, 'executions': len(log2)})
+                except Violation:
+                    raise
+                except Exception as e:
+                    raise Violation('call-raised', {'source': src, 'where': 'a new object with a new cache',
+                                                    'error': repr(e)[:300]})
+                del o2
         nt = any(len(s) >= 2 for s in spellings.values()) and any(len(k) >= 2 for k in keys_per_method.values())
         cl = ['backend:' + case['backend']] + sorted({'form:' + m['form'] for m in methods})
         if any(m['ignore'] for m in methods):
